@@ -117,7 +117,18 @@ def att_mem_regs_domain(w):
     return _operand_fields_domain(w, inter(z3.Plus(fch), comp(vocab)))
 
 
-DOMAINS = {"att_mem": att_mem_domain, "regs": regs_domain, "att_mem_regs": att_mem_regs_domain}
+def small_mnemonics_domain(w, vocab_names=("mov", "movz", "push", "pop", "nop", "d")):
+    """Finite-vocabulary domain used for any-order groups with >= 4 children (the unrestricted complement does not
+    terminate in z3): every record is  <one hex digit>::<mnemonic>,,|  with the mnemonic drawn from a vocabulary that
+    contains the children's names, a proper extension of one of them and an unrelated name."""
+    cols = w.colours
+    lit = lambda t: w.lit(t, cols)
+    vocab = rx.union([lit(m) for m in vocab_names])
+    rec = rx.concat([w.chars([ord(c) for c in "0123456789abcdef"], cols), lit("::"), vocab, lit(",,|")])
+    return z3.Star(rec)
+
+
+DOMAINS = {"att_mem": att_mem_domain, "regs": regs_domain, "att_mem_regs": att_mem_regs_domain, "small_mnemonics": small_mnemonics_domain}
 
 
 def check_template(tpl):
@@ -180,7 +191,8 @@ def check_template(tpl):
                 K2 = z3.Star(S2)
                 WF12 = inter(sM.WF((1, 2)), z3.Concat(z3.Star(S1), K2))
                 if tpl.get("domain"):
-                    WF12 = inter(WF12, DOMAINS[tpl["domain"]](M))
+                    dom = tpl["domain"]
+                    WF12 = inter(WF12, DOMAINS[dom](M) if isinstance(dom, str) else DOMAINS[dom[0]](M, tuple(dom[1])))
                 LM = rx.lang_at_start(tM, east, K2, (1,), (1, 2))
             if "AEM" in lem or "TWIN" in lem:
                 SM = sM.seq(pattern, K2, (1,))
